@@ -174,9 +174,9 @@ CHECKS = {
     "C19": dict(
         level="exploration",
         rule=("1-3 associations on one channel, 0-2 polls each with periods 300..2500 ms, keep-alive off/1500/4000 ms, user reads and writes submitted singly and in bursts at arbitrary virtual instants (many aligned with poll deadlines), poll demands, replies prompt / late / never, unsolicited, stale and link-layer noise; "
-              "a reference schedule model is evaluated at every request written: Q1 FIFO per association and user requests ahead of polls/keep-alives, Q2 polls never before completion+period, Q3 least-recently-served association first, Q4 keep-alive only after silence and after due polls, Q5 one outstanding request, Q6 write instant == max(channel free, earliest eligibility) exactly and scheduler passes bounded by events"),
+              "a reference schedule model is evaluated at every request written: Q1 FIFO per association and user requests ahead of polls/keep-alives, Q2 polls never before completion+period, Q3 least-recently-served association first, Q4 keep-alive only after silence and after due polls, Q5 one outstanding request, Q6 write instant == max(channel free, earliest eligibility) exactly and scheduler passes bounded by events, Q7 channel disabled for 0..1500 ms then enabled on a new connection: nothing written while disabled, the model holds again afterwards"),
         runs=[dict(check="c19", scale=3, timeout_s=900)],
-        required=["Q1_fifo_ok", "Q1_no_user_waiting_ok", "Q2_poll_not_early_ok", "Q3_turn_taken_in_order_ok", "Q4_keep_alive_after_silence_ok", "Q5_channel_free_ok", "Q6_wake_exact_ok", "Q6_woke_at_deadline_ok", "Q6_no_spin_ok"],
+        required=["Q1_fifo_ok", "Q1_no_user_waiting_ok", "Q2_poll_not_early_ok", "Q3_turn_taken_in_order_ok", "Q4_keep_alive_after_silence_ok", "Q5_channel_free_ok", "Q6_wake_exact_ok", "Q6_woke_at_deadline_ok", "Q6_no_spin_ok", "Q7_silent_while_disabled_ok"],
         thorough_scale=12.0,
         abnormal_exit_is_violation=True,
         assumptions=HARNESS_TRUST,
@@ -234,7 +234,7 @@ CHECKS = {
         runs=[dict(check="c20", driver="driver_ffi", timeout_s=900),
               # the raw-pointer entry points again under the Miri interpreter (aliasing / provenance / uninitialised reads)
               dict(check="c20", driver="driver_ffi", flavor="miri", scale=0.08, timeout_s=900)],
-        required=["variants_map_to_namesake", "round_trips_ok", "flags_ok", "timestamps_ok", "measurements_in_ok", "measurements_out_ok", "iin_ok", "differential_sequences_ok", "differential_image_octets", "conversion_Variation(in)", "conversion_CommandStatus(out)", "conversion_TaskType"],
+        required=["variants_map_to_namesake", "round_trips_ok", "flags_ok", "timestamps_ok", "measurements_in_ok", "measurements_out_ok", "iin_ok", "differential_sequences_ok", "differential_image_octets", "conversion_Variation(in)", "conversion_CommandStatus(out)", "conversion_TaskType", "conversion_TaskError->FileError", "permissions_ok"],
         thorough_scale=20.0,
         abnormal_exit_is_violation=True,
         assumptions=HARNESS_TRUST + ["'like-named' is decided on Debug names after removing case, underscores and payloads, with an explicit rename table (Unknown -> Nul for trip-close / operation codes that the binding cannot express)"],
